@@ -1,6 +1,8 @@
 package zzverif
 
 import (
+	"strings"
+
 	"github.com/luthersystems/elps/lisp"
 )
 
@@ -10,6 +12,7 @@ func init() {
 	verifRegister("VerifC01_ECore", VerifC01_ECore)
 	verifRegister("VerifC01_EArgs", VerifC01_EArgs)
 	verifRegister("VerifC01_KStable", VerifC01_KStable)
+	verifRegister("VerifC01_EHigher", VerifC01_EHigher)
 }
 
 var c01Env *lisp.LEnv
@@ -343,5 +346,85 @@ func VerifC01_KStable() {
 			vAssert(out[i-1].Cells[1].Int < out[i].Cells[1].Int, "records with equal keys keep their input order (the sort is stable)")
 		}
 	}
+	vCover("end")
+}
+
+// Higher-order builtins hand the ELEMENTS of a sequence to their function argument as they are.
+// The elements here are not self-evaluating — unquoted symbols that happen to be bound (a, b, c: arbitrary
+// symbolic integers) and an unquoted call form, as found inside any quoted list — so a builtin that builds
+// (f element) and evaluates it would pass 5, 1, 9 and 3 instead, or fail on an unbound name.
+type c01HO struct {
+	src   string
+	want  string
+	fx    string // expected probe effects, space separated ("" = not checked)
+	known string // id of a known finding (known_findings.json) this template exhibits
+	kgot  string // the exact wrong outcome that finding produces (only that is waived)
+}
+
+var c01HOs = []c01HO{
+	{"(map 'list (lambda (e) (probe e) e) S)", "'(b a (+ 1 2) 7)", "b a (+ 1 2) 7", "", ""},
+	{"(map 'vector (lambda (e) e) S)", "(vector b a (+ 1 2) 7)", "", "", ""},
+	{"(select 'list (lambda (e) (probe e) (symbol? e)) S)", "'(b a)", "b a (+ 1 2) 7", "", ""},
+	{"(reject 'list symbol? S)", "'((+ 1 2) 7)", "", "", ""},
+	{"(all? (lambda (e) (probe e) (not (nil? e))) S)", "true", "b a (+ 1 2) 7", "", ""},
+	{"(all? (lambda (e) (probe e) (symbol? e)) S)", "false", "b a (+ 1 2)", "", ""},
+	{"(any? (lambda (e) (probe e) (int? e)) S)", "true", "b a (+ 1 2) 7", "", ""},
+	{"(any? symbol? S)", "true", "", "", ""},
+	{"(all? symbol? S2)", "true", "", "", ""},
+	{"(any? int? S2)", "false", "", "", ""},
+	{"(foldl (lambda (acc e) (probe e) (cons e acc)) '() S)", "'(7 (+ 1 2) a b)", "b a (+ 1 2) 7", "", ""},
+	{"(foldr (lambda (e acc) (probe e) (cons e acc)) '() S)", "'(b a (+ 1 2) 7)", "7 (+ 1 2) a b", "", ""},
+	{"(stable-sort (lambda (p q) (string< (to-string p) (to-string q))) S2)", "'(a b c)", "", "", ""},
+	{"(stable-sort string< S2 (lambda (e) (to-string e)))", "'(a b c)", "", "", ""},
+	{"(stable-sort string< (vector 'c 'a 'b) to-string)", "(vector 'a 'b 'c)", "", "", ""},
+	{"(insert-sorted 'list '(a c) (lambda (p q) (string< (to-string p) (to-string q))) (car '(b)))", "'(a b c)", "", "", ""},
+	{"(insert-sorted 'list '(a c) string< (car '(b)) to-string)", "'(a b c)", "", "", ""},
+	{"(zip 'list S2 S2)", "'('(b b) '(c c) '(a a))", "", "", ""},
+	{"(apply list S2)", "'(b c a)", "", "", ""},
+	{"(unpack list S2)", "'(b c a)", "", "", ""},
+	{"(funcall list (car S2) (car (cdr S)))", "'(b a)", "", "", ""},
+	{"(map 'list (lambda (e) (if (symbol? e) 'sym (if (int? e) 'int 'form))) S)", "'('sym 'sym 'form 'int)", "", "", ""},
+	{"(length (select 'list (lambda (e) (equal? e '(+ 1 2))) S))", "1", "", "", ""},
+	{"(thread-last S (map 'list (lambda (e) e)) (select 'list symbol?))", "'(b a)", "", "", ""},
+	{"(let ((m (sorted-map))) (map 'list (lambda (e) (assoc! m e 1)) S2) (keys m))", "'('a 'b 'c)", "", "", ""},
+	// a closure keeps the environment it was CREATED in: for a lambda written in a let / let*
+	// initialiser that is the enclosing scope, not the scope the let is about to create
+	{"(let ((q 1)) (let ((p (lambda () q)) (q 2)) (funcall p)))", "1", "", "C01-let-initialiser-closure-scope", "2"},
+	{"(let ((q 1)) (let* ((p (lambda () q)) (q 2)) (funcall p)))", "1", "", "C01-let-initialiser-closure-scope", "2"},
+	{"(let ((q 1)) (let ((p (lambda () q))) (let ((q 2)) (funcall p))))", "1", "", "", ""},
+	// (compose f g) is (lambda (...) (f (g ...))) for every parameter list of g
+	{"(funcall (compose (lambda (r) (list 'f r)) (lambda (u &optional v) (list u v))) 1)", "'('f '(1 ()))", "", "", ""},
+	{"(funcall (compose (lambda (r) (list 'f r)) (lambda (u &rest v) (list u v))) 1 2 3)", "'('f '(1 '(2 3)))", "", "", ""},
+	{"(funcall (compose identity (lambda (&key k) k)) :k 1)", "1", "", "C01-compose-key-parameters", "error:error"},
+}
+
+func VerifC01_EHigher() {
+	ti := vConcInt(vndChoice("tmpl", len(c01HOs)))
+	t := c01HOs[ti]
+	ps := &probeState{}
+	env := newEnv(ps)
+	// whatever the symbols happen to be bound to (arbitrary integers): the elements are the symbols
+	env.PutGlobal(lisp.Symbol("a"), lisp.Int(vndInt("a")))
+	env.PutGlobal(lisp.Symbol("b"), lisp.Int(vndInt("b")))
+	env.PutGlobal(lisp.Symbol("c"), lisp.Int(vndInt("c")))
+	pre := env.LoadString("pre", "(set 'S '(b a (+ 1 2) 7)) (set 'S2 '(b c a))")
+	vAssert(pre.Type != lisp.LError, "prelude loads")
+	r := env.LoadString("t", t.src)
+	vObserve("src", t.src)
+	if t.known != "" && outcome(r) != t.want {
+		// KNOWN FINDING: only the exact documented wrong outcome is waived
+		if vKnown(t.known, outcome(r) == t.kgot) {
+			return
+		}
+	}
+	vAssert(outcome(r) == t.want, "the builtin / binding form behaves as the reference says; want "+t.want+" got "+outcome(r))
+	if t.fx != "" {
+		got := make([]string, len(ps.effects))
+		for i, e := range ps.effects {
+			got[i] = strings.TrimLeft(e, "'")
+		}
+		vAssert(strings.Join(got, " ") == t.fx, "in order, each exactly once: "+strings.Join(got, " "))
+	}
+	cleanRuntime(env, "user")
 	vCover("end")
 }
